@@ -1,7 +1,7 @@
 (* Wire format of the runner family: decoding of dialogues and operation sequences, execution on
    the model, encoding of the observations. *)
 From Coq Require Import List ZArith NArith Bool.
-From YS Require Import Base.Sexp Num.F64 Yarn.Ast Yarn.Value Yarn.Eval Markup.LineParser Markup.MarkupWire Yarn.Runner.
+From YS Require Import Base.Sexp Num.F64 Yarn.Ast Yarn.Value Yarn.Eval Markup.LineParser Markup.MarkupWire Yarn.Runner Syntax.CommandText.
 Import ListNotations.
 
 Definition dec_value (e : sexp) : option value :=
@@ -55,6 +55,13 @@ Definition dec_telem (e : sexp) : option telem :=
   match e with
   | SL [SS t; SS s] => if tag_is t "t" then Some (TText s) else None
   | SL [SS t; x] => if tag_is t "e" then option_map TExpr (dec_expr x) else None
+  | _ => None
+  end.
+
+Definition dec_relem (e : sexp) : option relem :=
+  match e with
+  | SL [SS t; SS s] => if tag_is t "t" then Some (RText s) else None
+  | SL [SS t; x] => if tag_is t "e" then option_map RExpr (dec_expr x) else None
   | _ => None
   end.
 
@@ -113,6 +120,8 @@ Fixpoint dec_stmt (e : sexp) : option stmt :=
       else if tag_is t "opts" then option_map SOpts (go_opts args)
       else if tag_is t "if" then option_map SIf (go_clauses args)
       else if tag_is t "cmd" then option_map SCmd (dec_exprs args)
+      else if tag_is t "rawcmd" then                      (* as collected by the listener, before rearrange *)
+        option_map (fun els => SCmd (rearrange els [])) (map_opt dec_relem args)
       else match args with
            | [SS x; SS o; v] => if tag_is t "set" then
                                   match dec_setop o, dec_expr v with
